@@ -542,8 +542,9 @@ def _groups():
 
 
 def _case_key(c):
-    return (c['user'] != 'u', c['ins'] != '', TAILS.index(c['tail']), c['mode'] != 'raw-dict', list(FILTERS).index(c['filter']),
-        c['field'], c['placement'], SCHEMES.index(c['scheme']), c['user'], INS.index(c['ins']), c['mode'])
+    return (c['user'] != 'u', c['ins'] != '', TAILS.index(c['tail']), c['mode'] != 'raw-dict',
+        (FIELD_PLACEMENTS + EXTRA_PLACEMENTS).index(c['placement']), list(FILTERS).index(c['filter']), c['field'],
+        SCHEMES.index(c['scheme']), c['user'], INS.index(c['ins']), c['mode'])
 
 
 def _group_item(item):
